@@ -38,6 +38,11 @@ def run_family(prop: str, which: str, argv: List[str], doms: str, nontrivial, ru
 
 def evaluate(res: List[Dict[str, Any]], which: str, jobs: int) -> Dict[str, Any]:
     live = [r for r in res if r["ncases"]]
+    # hierarchies diverted as "heavy" (rb.record_domain(heavy=N)) live in their own files
+    for r in res:
+        if r.get("heavy_path"):
+            live.append({"path": r["heavy_path"], "shard": r["shard"], "ncases": 1,
+                         "summary": [dict(s, case=s["heavy"]) for s in r["summary"] if s.get("heavy")]})
     envs = [{"CASES": r["path"], "WHICH": which} for r in live]
     results = tlc.run_shards("StageCheck", CFG, envs, jobs=jobs, workers=1, timeout=3000)
     tlc.require_ok(results, "StageCheck " + which)
@@ -45,10 +50,10 @@ def evaluate(res: List[Dict[str, Any]], which: str, jobs: int) -> Dict[str, Any]
     for r, tr in zip(live, results):
         out["states"] += tr.distinct
         out["generated"] += tr.generated
-        expect = sum(len_stages(s) for s in r["summary"] if s.get("build") == "ok")
+        expect = sum(len_stages(s) for s in r["summary"] if s.get("build") == "ok" and s.get("case"))
         if tr.distinct != expect:
             raise tlc.MachineryError("StageCheck evaluated %d states, expected %d (shard %d)" % (tr.distinct, expect, r["shard"]))
-        bycase = {s["case"]: s for s in r["summary"] if s.get("build") == "ok"}
+        bycase = {s["case"]: s for s in r["summary"] if s.get("build") == "ok" and s.get("case")}
         for v in tr.violations:
             st = tlc.parse_state(v["states"][0])
             s = bycase[st["tid"]]
